@@ -53,9 +53,9 @@ META = {
                   'process for -n k (full strength since the repair of the finding process-teardown-failure made by this '
                   'check; the behaviour before it and the pinned thread behaviour are kept as counterexample theorems).',
     'level_note': 'The laziness monitor monLazy is proved of the model (C11_lazy_monitor) under the decidable hypothesis '
-                  'Bounded inp nTasks (all task names below the monitor\'s parameter; evaluated on every case: hyp:bounded) and '
-                  'NoFailDeliver (no calc task delivers values after a failed execution; the generator of this check never '
-                  'makes such tasks); '
+                  'Bounded inp nTasks (all task names below the monitor\'s parameter, and a task without actions delivers '
+                  'nothing after a failed execution; evaluated on every case: hyp:bounded); deliveries of calc tasks that '
+                  'failed after returning values (calcResFail) are part of the monitor and of the theorem; '
                   'for arbitrary nTasks the statement is false (C11_lazy_monitor_full_counterexample: the parameter is also '
                   'the fuel of the monitor\'s closure; an artefact of the monitor, replayed on the real doit).  '
                   'Trusted: Lean kernel; '
@@ -291,12 +291,13 @@ def py_monitor_lazy(case, trace):
     just = set()
     todo = list(sel)
     fin_all = set(e[1] for e in trace if e[0] in ('success', 'skip_uptodate'))
+    failed_run = set(e[1] for e in trace if e[0] == 'failure') & set(e[1] for e in trace if e[0] == 'start')
     while todo:
         t = todo.pop()
         if t in just or not (0 <= t < n):
             continue
         just.add(t)
-        nxt = first_stage_deps(model, t, fin_all)
+        nxt = first_stage_deps(model, t, fin_all, failed_run)
         for d in model['setup'][t]:
             i = _first_mention(trace, d)
             if run_pending(t, len(trace) if i is None else i):
@@ -319,7 +320,7 @@ def py_monitor_lazy(case, trace):
     return res
 
 
-def first_stage_deps(model, t, finished):
+def first_stage_deps(model, t, finished, failed_run=()):
     """dependencies of the first stage of `t` (everything but setup-tasks): task_dep, calc_dep and what the calc_dep
     tasks in `finished` delivered, transitively through delivered calc_deps (model['calcRes'] is non-null only for
     tasks that do deliver when they are executed / found up-to-date)"""
@@ -331,8 +332,14 @@ def first_stage_deps(model, t, finished):
         if c in seen:
             continue
         seen.add(c)
-        cr = model['calcRes'][c]
-        if not cr or c not in finished:
+        if c in finished:
+            cr = model['calcRes'][c]
+        elif c in failed_run:
+            # executed and reported failed: doit still hands over what its actions returned before the failing one
+            cr = (model.get('calcResFail') or [None] * model['n'])[c]
+        else:
+            cr = None
+        if not cr:
             continue
         deps |= set(cr['task']) | set(cr['file']) | set(cr['calc'])
         todo += list(cr['calc'])
@@ -391,7 +398,7 @@ SIGNATURES = {}
 # ======================================================================================================
 
 KNOBS = {'n_min': 3, 'n_max': 8, 'p_teardown': 0.6, 'p_utd': 0.24, 'p_ignored': 0.09, 'p_error': 0.05,
-         'p_failed': 0.12, 'p_exc': 0.06, 'p_dup_sel': 0.05, 'p_shared': 0.6,
+         'p_failed': 0.12, 'p_exc': 0.06, 'p_dup_sel': 0.05, 'p_shared': 0.6, 'p_calc_then_fail': 0.1,
          'weights': {'task_dep': 22, 'setup': 34, 'calc_dep': 14, 'file': 8, 'getargs': 10, 'result_dep': 4,
                      'getargs_setup': 6}}
 
